@@ -90,6 +90,8 @@ where
 
         // drop the model here, we don't want to hold the lock for the process() call
         drop(model);
+        #[cfg(crux_verif)]
+        crate::verif::point("core.process_event.applied");
 
         self.command_spawner.spawn(command);
         self.process()
@@ -123,18 +125,28 @@ where
     // ANCHOR: process
     pub(crate) fn process(&self) -> Vec<A::Effect> {
         self.executor.run_all();
+        #[cfg(crux_verif)]
+        crate::verif::point("core.process.loop");
 
         while let Some(capability_event) = self.capability_events.receive() {
+            #[cfg(crux_verif)]
+            crate::verif::point("core.process.received");
             let mut model = self.model.write().expect("Model RwLock was poisoned.");
             let command = self
                 .app
                 .update(capability_event, &mut model, &self.capabilities);
 
             drop(model);
+            #[cfg(crux_verif)]
+            crate::verif::point("core.process.applied");
 
             self.command_spawner.spawn(command);
             self.executor.run_all();
+            #[cfg(crux_verif)]
+            crate::verif::point("core.process.loop");
         }
+        #[cfg(crux_verif)]
+        crate::verif::point("core.process.drain");
 
         self.requests.drain().collect()
     }
@@ -145,6 +157,24 @@ where
         let model = self.model.read().expect("Model RwLock was poisoned.");
 
         self.app.view(&model)
+    }
+}
+
+#[cfg(crux_verif)]
+impl<A> Core<A>
+where
+    A: App,
+{
+    /// Verification hook (read-only): lengths of the executor's spawn and ready queues, of the
+    /// event channel and of the effect channel.
+    pub fn verif_queue_lens(&self) -> (usize, usize, usize, usize) {
+        let (spawn, ready) = self.executor.verif_queue_lens();
+        (
+            spawn,
+            ready,
+            self.capability_events.verif_len(),
+            self.requests.verif_len(),
+        )
     }
 }
 
